@@ -64,7 +64,7 @@ def draw_write(rnd, old):
     if roll < 0.33 and isinstance(old, (int, float)) and not isinstance(old, bool):
         # a number that differs from the old one only in the last digits
         return rnd.choice((old + 1e-9, old * (1 + 1e-7) if old else 1e-9, old - 1e-12,
-                           old + 1 if abs(old) >= 1e6 else old * (1 + 1e-12) if old else 5e-324))
+                           old + 1 if abs(old) >= 1e6 else old * (1 + 1e-12) if old else 1e-9))
     if roll < 0.40:
         return round(rnd.uniform(-9, 9), 2)
     return rnd.choice(WRITE_POOL)
